@@ -112,6 +112,51 @@ def silent_case(seed):
     return problems
 
 
+def dataset_neutral_case(seed):
+    """Source >> [hash-transparent layer] >> Filter / GroupBy: inserting a cache layer of ANY kind (RAM, disk, columns) or an
+    inherit-only Transform upstream of a dataset-wide layer changes neither the digest of `ids` nor of the other fields"""
+    import shutil, tempfile
+    from . import paths
+    rng = random.Random(seed)
+    world = SymWorld()
+    problems, rewrites = [], 0
+    os.makedirs(paths.SCRATCH, exist_ok=True)
+    root = tempfile.mkdtemp(dir=paths.SCRATCH)
+    try:
+        src = {'k': 'source', 'cls': 'SN', 'ids': ['i1', 'i2', 'i3', 'i4'], 'fields': {'a': {'args': ['i']}, 'c': {'args': ['i']}},
+               'params': {}, 'cargs': {}, 'defaults': {}}
+        world.tables['predN'] = {}
+        tail = rng.choice([{'k': 'filter', 'f': 'predN', 'args': ['a'], 'table': []},
+                           {'k': 'groupby', 'by': 'c'}])
+        neutral = [('none', None),
+                   ('ram', {'k': 'ram', 'names': None, 'size': None}),
+                   ('disk', {'k': 'disk', 'names': ['a', 'c'], 'root': 0}),
+                   ('columns', {'k': 'columns', 'names': ['a', 'c'], 'root': 0, 'shard': rng.choice([None, 2])}),
+                   ('inherit-only', {'k': 'transform', 'cls': 'NeutralN', 'fields': {}, 'params': {}, 'cargs': {}, 'defaults': {}, 'inherit': True})]
+        base = None
+        for what, layer in neutral:
+            layers = [src] + ([layer] if layer else []) + [tail]
+            try:
+                b = Builder(world, roots=[root])
+                p = b.layer({'k': 'chain', 'flavour': 'chain', 'layers': layers})
+                got = {'ids': digest_of(p._compile('ids'), [])}
+                if tail['k'] == 'filter':
+                    got['c'] = digest_of(p._compile('c'), ['i1'])
+            except Exception as e:
+                problems.append({'msg': f'inserting {what!r} upstream of {tail["k"]} raises {exc_name(e)}: {str(e)[:100]}'})
+                continue
+            rewrites += 1
+            if base is None:
+                base = got
+            elif got != base:
+                bad = [k for k in base if got.get(k) != base[k]]
+                problems.append({'rewrite': what, 'tail': tail['k'],
+                                 'msg': f'inserting the hash-transparent layer {what!r} upstream of {tail["k"]} changed the digest of {bad}'})
+    finally:
+        shutil.rmtree(root, ignore_errors=True)
+    return rewrites, problems
+
+
 # ---------------------------------------------------------------- fresh interpreters
 
 SEED_SCRIPT = r'''
@@ -196,4 +241,7 @@ def run_shard(args):
         rewrites += rec['rewrites']
         cases += 1
     problems += silent_case(seed)
+    r2, p2 = dataset_neutral_case(seed)
+    rewrites += r2
+    problems += p2
     return {'cases': cases, 'rewrites': rewrites}, problems
